@@ -26,6 +26,8 @@ S2C_ONLY = {pdu_class_name(n) for k, (n, d) in SPEC_TYPES.items() if d == "s2c"}
 
 def check(ctx):
     a = ctx.a
+    from .c02 import wire_premise
+    wire_premise(ctx, "W0", "the bytes written are not a sequence of well-formed client-to-broker packets: a strict broker loses framing or drops the connection")
     ty = types(a)
     nw = 0
     sites = set()
